@@ -353,7 +353,7 @@ _PE_RULE = ("histories (25-110 scheduler decisions, then a fault-free drain to a
             "optimistic concurrency: never-reused versions, Conflict on stale Update/Status().Update, none on Patch/Delete, finalizer + deletionTimestamp) and a fake cloud (interfaces with tags, "
             "creation time, attachment; foreign interfaces of every tag/age/type/status). Every API-server / cloud call of an actor's main line is parked until a seeded scheduler releases it "
             "(possibly failing it), so reconciliations of the two controllers and passes of the two collectors interleave call by call with pod creation, graceful termination, completion, removal, "
-            "recreation under the same name on another node, and virtual-clock steps (multiples of 70 s: no age equals the 600 s grace, TTLs are 35 mod 70); parallel create/attach workers run through "
+            "recreation under the same name on another node or as a pod that is never scheduled (Pending: the pod controller's predicate drops it, the record collector has to keep its record alive), and virtual-clock steps (multiples of 70 s: no age equals the 600 s grace, TTLs are 35 mod 70); parallel create/attach workers run through "
             "or are paused at one call. Each call is one protocol line whose outcome is the answer plus the record and the name's interfaces afterwards; the Lean model must accept the event and agree on that state. "
             "Monitors (independent of the model): phase edges, no detach/delete of an interface named by the record of the running pod instance, roll-back of failed creation, convergence after deletion, "
             "same interfaces/addresses at re-bind, TTL against the harness's own observation times, leak-collector targets (tags, age, references).")
